@@ -137,7 +137,7 @@ def print_lines(out):
     res = []
     i = 0
     while True:
-        m = re.search(r'<<"(?:REJECT|KNOWN|INFO|DONE|OK)"', out[i:])
+        m = re.search(r'<<\s*"(?:REJECT|KNOWN|INFO|DONE|OK)"', out[i:])       # long values are pretty printed: << "REJECT",\n 1,\n {...} >>
         if not m: break
         s = i + m.start()
         p = tlaval.P(out); p.i = s
